@@ -39,6 +39,7 @@ TInit ==
         /\ s.rver \in BOOLEAN /\ s.code \in 0..255 /\ s.atyp \in {"v4", "v6", "dom", "unk"}
         /\ (s.req = "CONNECT" => s.atyp # "dom") /\ (s.req # "CONNECT" => s.napp = 0)
         /\ scen \in {[b EXCEPT !.failAt = f] : f \in FailAts(b)}
+  /\ sync = Traces[tid].sync
   /\ InitRest
 
 TNext ==
